@@ -198,23 +198,28 @@ def from_isodatetime(date_time: str | None):
         if not match:
             raise ValueError(date_time)
         kwargs = {}
-        for key, value in match.groupdict().items():
-            if key == 'tzinfo':
-                kwargs[key] = parse_timezone(value)
-            elif key == 'second':
-                if '.' in value:
-                    whole, frac = value.split('.', 1)
-                    if '.' in frac or not (whole or frac):
-                        raise ValueError(date_time)
-                    kwargs[key] = int(whole or '0', 10)
-                    # take the microseconds from the decimal digits
-                    # themselves, going through a float loses the last digit
-                    kwargs['microsecond'] = int((frac + '000000')[:6], 10)
+        try:
+            for key, value in match.groupdict().items():
+                if key == 'tzinfo':
+                    kwargs[key] = parse_timezone(value)
+                elif key == 'second':
+                    if '.' in value:
+                        whole, frac = value.split('.', 1)
+                        if '.' in frac or not (whole or frac):
+                            raise ValueError(date_time)
+                        kwargs[key] = int(whole or '0', 10)
+                        # take the microseconds from the decimal digits
+                        # themselves, going through a float loses the last digit
+                        kwargs['microsecond'] = int((frac + '000000')[:6], 10)
+                    else:
+                        kwargs[key] = int(value, 10)
                 else:
                     kwargs[key] = int(value, 10)
-            else:
-                kwargs[key] = int(value, 10)
-        return datetime.datetime(**kwargs)
+            return datetime.datetime(**kwargs)
+        except OverflowError as err:
+            # a number that does not fit into the C integers used by
+            # datetime and timedelta
+            raise ValueError(date_time) from err
     if 'Z' not in date_time:
         try:
             return datetime.datetime.strptime(date_time, "%Y-%m-%d")
